@@ -29,11 +29,11 @@ import (
 // ---------------------------------------------------------------- inputs
 
 var c11Files = map[string]string{
-	"nt.fa":    ">s1\nATGGCTAAGTGA\n>s2\nATGGCTAAG-GA\n>s3\nATGACTAAGTNA\n>s4\nATGACCAAGTGA\n",
-	"nt2.fa":   ">s1\nACGT\n>s2\nAC-T\n>s5\nTTTT\n",
-	"tie.fa":   ">a\nACGT-N\n>b\nCAGT-N\n>c\nACTG-A\n>d\nCATGNA\n",
-	"odd.fa":   ">a\nAC?T*N\n>b\nA-?T*a\n>c\nacgt-?\n",
-	"aa.fa":    ">p1\nMAKWL-\n>p2\nMAKWLL\n>p3\nMGKWIL\n",
+	"nt.fa":  ">s1\nATGGCTAAGTGA\n>s2\nATGGCTAAG-GA\n>s3\nATGACTAAGTNA\n>s4\nATGACCAAGTGA\n",
+	"nt2.fa": ">s1\nACGT\n>s2\nAC-T\n>s5\nTTTT\n",
+	"tie.fa": ">a\nACGT-N\n>b\nCAGT-N\n>c\nACTG-A\n>d\nCATGNA\n",
+	"odd.fa": ">a\nAC?T*N\n>b\nA-?T*a\n>c\nacgt-?\n",
+	"aa.fa":  ">p1\nMAKWL-\n>p2\nMAKWLL\n>p3\nMGKWIL\n",
 	// gapped protein alignment long enough for bootstrap replicates to give defined distances
 	"aa2.fa": ">p1\nMAKWLLDE-RSTVIPG\n>p2\nMAKWL-DEQRSTVLPG\n>p3\nMGKWILNEQRATV-PG\n>p4\nMGRWILNDQKATVIPA\n",
 	// a saturated pair (s2,s3 differ at exactly 3 sites of 4: the jc distance is undefined) met after the
@@ -44,15 +44,15 @@ var c11Files = map[string]string{
 	// first row: protein-only letters; second row: also U and O (no alphabet fits the whole alignment); a column
 	// conserved within a Clustal "strong" group without being identical (I/L)
 	"mixed.fa": ">a\nEIQLFP\n>b\nELQUOP\n>c\nEIQLFP\n",
-	"sat.fa":  ">s1\nAACA\n>s2\nAAAA\n>s3\nCCCA\n",
-	"sat2.fa": ">s1\nAAAA\n>s2\nCCCA\n>s3\nAACA\n",
+	"sat.fa":   ">s1\nAACA\n>s2\nAAAA\n>s3\nCCCA\n",
+	"sat2.fa":  ">s1\nAAAA\n>s2\nCCCA\n>s3\nAACA\n",
 	// the ORF ATGCTTTGGTAA translates to MLW*: L is a protein-only letter, so the pairwise aligner reads it as a protein
 	"unal.fa": ">u1\nCCATGCTTTGGTAAGG\n>u2\nATGCTTTGGTAA\n>u3\nGATGCTATGGTAAC\n>u4\nCCTTACCAAAGCATGG\n",
 	// here the ORF ATGGCTTGGTAA translates to MAW*, which goalign reads as nucleotides: every alignment fails on '*'
 	"unalerr.fa": ">u1\nCCATGGCTTGGTAAGG\n>u2\nATGGCTTGGTAA\n>u3\nGATGGCATGGTAAC\n>u4\nCCTTACCAAGCCATGG\n",
-	"pair.fa":  ">q1\nACGTTGCA\n>q2\nCGTAGC\n",
-	"orf.fa":   ">orf\nATGCTTTGGTAA\n",
-	"multi.ph": "   3   6\nx1  ACGTAC\nx2  ACG-AC\nx3  TCGTAA\n   3   4\nx1  ACGT\nx2  AC-T\nx3  TCGA\n",
+	"pair.fa":    ">q1\nACGTTGCA\n>q2\nCGTAGC\n",
+	"orf.fa":     ">orf\nATGCTTTGGTAA\n",
+	"multi.ph":   "   3   6\nx1  ACGTAC\nx2  ACG-AC\nx3  TCGTAA\n   3   4\nx1  ACGT\nx2  AC-T\nx3  TCGA\n",
 	// the second alignment announces 3 sequences of 4 sites but holds a short row
 	"multibad.ph": "   3   6\nx1  ACGTAC\nx2  ACG-AC\nx3  TCGTAA\n   3   4\nx1  ACGT\nx2  AC\nx3  TCGA\n",
 	"counts.txt":  "s1\t3\ns2\t2\ns3\t1\ns4\t2\n",
